@@ -752,3 +752,11 @@ CORPUS += [
     V("C17", "eval-pad-on-the-left", EVF, "(0, max_length - action.size(-1))", "(max_length - action.size(-1), 0)", "C17.b"),
     V("C17", "eq-eval-pad-rename", EVF, "max_length = max(action.size(-1) for action in actions_list)", "max_length = max(a.size(-1) for a in actions_list)", None),
 ]
+
+CORPUS += [
+    V("C11", "forward-returns-other-actions", CPB, '            outdict["actions"] = actions', '            outdict["actions"] = torch.stack(decode_strategy.actions, 1)', "C11.c"),
+    V("C11", "forward-hook-result-swapped", CPB, "        logprobs, actions, td, env = decode_strategy.post_decoder_hook(td, env)", "        actions, logprobs, td, env = decode_strategy.post_decoder_hook(td, env)", "C11.c"),
+    V("C11", "eq-forward-hook-result-renamed", CPB, "        logprobs, actions, td, env = decode_strategy.post_decoder_hook(td, env)", "        lp, acts, td, env = decode_strategy.post_decoder_hook(td, env)\n        logprobs, actions = lp, acts", None),
+    V("C16", "rollout-values-not-detached", BLF, "            .detach()\n            .cpu()", "            .cpu()", "C16.a"),
+    V("C16", "eq-rollout-values-detach-after-cpu", BLF, "            .detach()\n            .cpu()", "            .cpu().detach()", None),
+]
